@@ -80,6 +80,34 @@ def install(prog):
             return ok(v)
         raise Unsupported('to_value of ' + t)
 
+    @B('serde_json::Number::as_u64', 'serde_yaml::Number::as_u64')
+    def b_number_as_u64(ctx, a, callee):
+        n = D(a[0])
+        kind, v = n.fields
+        if kind == 'u64':
+            return some(v)
+        if kind == 'i64':
+            if is_sym(v):
+                return some(v) if ctx.branch(v >= 0) else NONE
+            return some(v) if v >= 0 else NONE
+        return NONE
+
+    @B('serde_json::Number::is_i64', 'serde_json::Number::is_u64', 'serde_json::Number::is_f64', 'serde_yaml::Number::is_i64', 'serde_yaml::Number::is_u64', 'serde_yaml::Number::is_f64')
+    def b_number_is(ctx, a, callee):
+        kind, v = D(a[0]).fields
+        k = callee.rsplit('::', 1)[1]
+        if k == 'is_f64':
+            return kind == 'f64'
+        if kind == 'f64':
+            return False
+        if k == 'is_i64':
+            if kind == 'i64':
+                return True
+            return (v <= (1 << 63) - 1) if not is_sym(v) else (v >= 0)       # u64 as a 64-bit pattern: fits i64 iff the top bit is clear
+        if kind == 'u64':
+            return True
+        return (v >= 0)
+
     @B('serde_json::Number::as_i64', 'serde_yaml::Number::as_i64')
     def b_number_as_i64(ctx, a, callee):
         n = D(a[0])
